@@ -32,6 +32,8 @@ SubKinds == [
                                                         \* an inner length that runs past the frame: reset
   Truncated |-> <<"body", "len", "nobody">>,            \* EOF inside the body / inside the length / right after the length
   Rpc       |-> <<"rpc">>,                              \* a well-formed RPC whose fields are given by classes
+  Dup       |-> <<"streams">>,                         \* no bytes: the peer opens 8 further inbound streams, one after the other,
+                                                        \* without closing the previous ones (the node keeps the last)
   Tick      |-> <<"hb">> ]                              \* no frame: one heartbeat of the node passes (end of a scenario)
 
 (* One class per field of a well-formed RPC.  The FIRST class of a field is its
@@ -48,7 +50,10 @@ Fields == [
   subTopic   |-> <<"absent", "empty", "known", "unknown", "huge">>,
   subFlag    |-> <<"absent", "true", "false">>,
   subPart    |-> <<"absent", "req", "sup", "both">>,
-  nmsg       |-> <<"0", "1", "few", "many">>,
+  nmsg       |-> <<"0", "1", "few", "many", "qm", "q", "qp", "absorb", "over">>,
+                 \* measured against the node's validation pipeline (loop -> validateQ -> worker -> sendMsg -> loop):
+                 \* q = cap(validateQ), qm / qp = q-1 / q+1, absorb = q + workers + cap(sendMsg) = all the pipeline can
+                 \* hold while the loop is busy, over = absorb + 16.  The driver reads q, workers, cap(sendMsg) off the node.
   msgTopic   |-> <<"absent", "empty", "known", "unknown", "huge">>,
   from       |-> <<"absent", "empty", "self", "own", "other", "garbage">>,
   seqno      |-> <<"0", "1", "3", "7", "8", "9">>,       \* length in bytes
@@ -88,7 +93,7 @@ Fields == [
 DeepOverride == [
   nsub       |-> <<"1", "few">>,
   subTopic   |-> <<"known", "absent", "unknown">>,
-  nmsg       |-> <<"1", "few">>,
+  nmsg       |-> <<"1", "few", "q", "qp", "absorb", "over">>,
   msgTopic   |-> <<"known">>,
   from       |-> <<"own", "other">>,
   sig        |-> <<"signed">>,
@@ -114,7 +119,11 @@ Cfg == [
   router    |-> <<"gossipsub", "floodsub", "randomsub">>,
   proto     |-> <<"v11", "v10", "v12", "v13", "flood">>, \* protocol of the hostile peer's streams
   hpeer     |-> <<"known", "unknown">>,                  \* unknown: the node has no outbound stream to the sender
-  validator |-> <<"none", "seqno">>,                     \* WithDefaultValidator(NewBasicSeqnoValidator(store))
+  validator |-> <<"none", "seqno", "inline">>,           \* WithDefaultValidator(NewBasicSeqnoValidator(store)): asynchronous /
+                                                         \* WithValidatorInline(true): runs inside the validation worker
+  valq      |-> <<"default", "small">>,                  \* small: WithValidateQueueSize(2), WithValidateWorkers(1)
+  hslow     |-> <<"off", "on">>,                         \* on: WithPeerOutboundQueueSize(2) and the hostile peer's transport does
+                                                         \* not take the node's writes (its outbound queue overflows)
   filter    |-> <<"none", "allow", "regexp", "limit">>,  \* WithSubscriptionFilter(...)
   sign      |-> <<"strict", "nosign", "lax">>,           \* StrictSign / StrictNoSign (+content ids) / LaxSign
   score     |-> <<"off", "on">>,
@@ -131,13 +140,15 @@ CfgDeepOverride == [ sign |-> <<"strict">>, hscore |-> <<"zero", "high">>, filte
 (* The only constraint of the table: BasicSeqnoValidator is documented to need a signing policy with
    sequence numbers ("doesn't support anonymous mode"): with it an anonymous node ignores EVERY message,
    honest ones included, so that pair of classes is not a configuration of the property.              *)
-Forbidden == << <<"cfg.validator", "seqno", "cfg.sign", "nosign">> >>
+Forbidden == << <<"cfg.validator", "seqno", "cfg.sign", "nosign">>, <<"cfg.validator", "inline", "cfg.sign", "nosign">> >>
 
 (* The flood-protection caps the node under test is configured with (small, so that "exactly at the
    cap" and "one more" are cheap to reach).  The driver builds the node from THESE numbers and turns
    the classes capm / cap / capp / pend / pendp / limp into counts with them.                       *)
 Caps == [ MaxIHaveLength |-> 3, MaxIHaveMessages |-> 2, MaxIDontWantLength |-> 2, MaxIDontWantMessages |-> 2,
-          PrunePeers |-> 2, MaxPendingConnections |-> 4, Connectors |-> 1, GossipRetransmission |-> 2, SubLimit |-> 3 ]
+          PrunePeers |-> 2, MaxPendingConnections |-> 4, Connectors |-> 1, GossipRetransmission |-> 2, SubLimit |-> 3,
+          ValidateQueueSmall |-> 2, ValidateWorkersSmall |-> 1, OutboundQueueSmall |-> 2, SlowSubscriberBuffer |-> 2,
+          OverMargin |-> 16 ]
 
 Table == [ subkinds |-> SubKinds, fields |-> Fields, deep |-> DeepOverride,
            cfg |-> Cfg, gossipOnly |-> GossipOnly, cfgDeep |-> CfgDeepOverride, forbidden |-> Forbidden, caps |-> Caps ]
@@ -159,7 +170,7 @@ IsFrame(fr) == /\ fr.kind \in DOMAIN SubKinds
 IsCfg(c) == /\ DOMAIN c = DOMAIN Cfg
             /\ \A k \in DOMAIN Cfg : c[k] \in Range(Cfg[k])
             /\ c.router # "gossipsub" => \A k \in GossipOnly : c[k] = BlankCfg[k]
-            /\ ~(c.validator = "seqno" /\ c.sign = "nosign")
+            /\ ~(c.validator \in {"seqno", "inline"} /\ c.sign = "nosign")
 
 (* The alphabet of named frames from which GenWire builds all sequences. *)
 ValidMsg == [nmsg |-> "1", msgTopic |-> "known", from |-> "own", seqno |-> "8", sig |-> "signed", data |-> "small"]
@@ -209,6 +220,12 @@ AnchorFrames == [
   pxpend    |-> PxOf("pend"),
   pxpendp   |-> PxOf("pendp"),
   pxflood   |-> Frame("Rpc", "rpc", [nprune |-> "many", pruneTopic |-> "known", npx |-> "many", pxId |-> "fresh", pxRec |-> "valid"]),
+  msgqm     |-> Frame("Rpc", "rpc", [ValidMsg EXCEPT !.nmsg = "qm"]),
+  msgq      |-> Frame("Rpc", "rpc", [ValidMsg EXCEPT !.nmsg = "q"]),
+  msgqp     |-> Frame("Rpc", "rpc", [ValidMsg EXCEPT !.nmsg = "qp"]),
+  msgabsorb |-> Frame("Rpc", "rpc", [ValidMsg EXCEPT !.nmsg = "absorb"]),
+  msgover   |-> Frame("Rpc", "rpc", [ValidMsg EXCEPT !.nmsg = "over"]),
+  dup       |-> Raw("Dup", "streams"),
   sublim    |-> Frame("Rpc", "rpc", [nsub |-> "few", subTopic |-> "known", subFlag |-> "true"]),
   sublimp   |-> Frame("Rpc", "rpc", [nsub |-> "limp", subTopic |-> "known", subFlag |-> "true"]) ]
 Letters == [a \in DOMAIN Alphabet \cup DOMAIN AnchorFrames |-> IF a \in DOMAIN Alphabet THEN Alphabet[a] ELSE AnchorFrames[a]]
@@ -249,6 +266,20 @@ Anchors == <<
   [name |-> "px-pending-exact",       cfg |-> [router |-> "gossipsub"], seq |-> <<"pxpend", "pxpendp">>],
   [name |-> "px-flood",               cfg |-> [router |-> "gossipsub"], seq |-> <<"pxflood", "pxpend">>],
   [name |-> "px-flood-scored",        cfg |-> [router |-> "gossipsub", score |-> "on", hscore |-> "high"], seq |-> <<"pxflood", "pxflood">>],
+  \* every hand-off from the event loop to another goroutine, overfull by remote input:
+  \* validation pipeline (one RPC with more new valid messages than validateQ + workers + sendMsg can absorb)
+  [name |-> "valq-over-small",        cfg |-> [router |-> "gossipsub", valq |-> "small"], seq |-> <<"msgover", "msg">>],
+  [name |-> "valq-over-default",      cfg |-> [router |-> "gossipsub"], seq |-> <<"msgover">>],
+  [name |-> "valq-over-inline",       cfg |-> [router |-> "gossipsub", valq |-> "small", validator |-> "inline"], seq |-> <<"msgover", "msgover">>],
+  [name |-> "valq-over-async",        cfg |-> [router |-> "gossipsub", valq |-> "small", validator |-> "seqno"], seq |-> <<"msgover">>],
+  [name |-> "valq-over-scored",       cfg |-> [router |-> "gossipsub", valq |-> "small", score |-> "on", hscore |-> "high"], seq |-> <<"msgover">>],
+  [name |-> "valq-exact",             cfg |-> [router |-> "gossipsub", valq |-> "small"], seq |-> <<"msgqm", "msgq", "msgqp", "msgabsorb">>],
+  [name |-> "valq-over-floodsub",     cfg |-> [router |-> "floodsub", valq |-> "small"], seq |-> <<"msgover">>],
+  [name |-> "valq-over-randomsub",    cfg |-> [router |-> "randomsub", valq |-> "small"], seq |-> <<"msgover">>],
+  \* the hostile peer's own outbound queue (every GRAFT inside the backoff makes the node answer with a PRUNE)
+  [name |-> "outq-overfull",          cfg |-> [router |-> "gossipsub", hslow |-> "on"], seq |-> <<"prune", "graft", "graft", "graft", "graft">>],
+  [name |-> "outq-overfull-floodsub", cfg |-> [router |-> "floodsub", hslow |-> "on"], seq |-> <<"sub", "msg", "msg">>],
+  [name |-> "dup-streams",            cfg |-> [router |-> "gossipsub"], seq |-> <<"dup", "sub", "dup", "msg">>],
   [name |-> "sub-limit",              cfg |-> [router |-> "gossipsub", filter |-> "limit"], seq |-> <<"sublim", "sublimp">>],
   [name |-> "floodsub",         cfg |-> [router |-> "floodsub"], seq |-> <<"msg", "garbage", "msg">>],
   [name |-> "randomsub",        cfg |-> [router |-> "randomsub"], seq |-> <<"msg", "toolong", "msg">>] >>
@@ -279,7 +310,7 @@ Recv(fr) == IF fr.kind = "Rpc" THEN 1 ELSE 0
 
 \* D2 (deviation of the code as found): the message reaches BasicSeqnoValidator with a 1..7 byte seqno
 ReachesSeqnoValidator(c, fr) ==
-    /\ fr.kind = "Rpc" /\ c.validator = "seqno" /\ fr.f.nmsg # "0"
+    /\ fr.kind = "Rpc" /\ c.validator \in {"seqno", "inline"} /\ fr.f.nmsg # "0"
     /\ fr.f.msgTopic = "known" /\ fr.f.from \in {"own", "other"}
     /\ \/ c.sign \in {"strict", "lax"} /\ fr.f.sig = "signed" /\ fr.f.key \in {"absent", "match"}
        \/ c.sign = "lax" /\ fr.f.sig = "absent"
@@ -309,7 +340,7 @@ P_C12_Alive == alive
 IsolationStep(p, fr) ==
     /\ \A q \in Peers \ {p} : stream'[q] = stream[q]
     /\ (stream'[p] = "reset") <=> (fr.kind \in {"TooLong", "Garbage"} \/ (fr.kind = "Truncated" /\ fr.sub # "nobody"))
-    /\ fr.kind \in {"Empty", "Rpc", "Tick"} => stream'[p] = "open"
+    /\ fr.kind \in {"Empty", "Rpc", "Tick", "Dup"} => stream'[p] = "open"
     /\ fr.kind = "Truncated" => stream'[p] # "open"
 
 (* Observed form of the predicates (WireTrace evaluates these on what the real
@@ -317,7 +348,7 @@ IsolationStep(p, fr) ==
 O_Alive(obs) == obs.alive
 O_Isolation(fr, obs, prevHOut, prevGOut) ==
     /\ fr.kind \in {"TooLong", "Garbage"} => obs.stream = "reset"
-    /\ fr.kind \in {"Empty", "Rpc", "Tick"} => obs.stream = "open"
+    /\ fr.kind \in {"Empty", "Rpc", "Tick", "Dup"} => obs.stream = "open"
     /\ fr.kind = "Truncated" => obs.stream \in {"reset", "eof"}
     /\ obs.gstream = "open"                       \* the honest peer's stream is untouched
     /\ obs.hOut = prevHOut /\ obs.gOut = prevGOut \* so are the node's own outbound streams
